@@ -1,0 +1,53 @@
+// SPDX-FileCopyrightText: 2026 The Pion community <https://pion.ly>
+// SPDX-License-Identifier: MIT
+
+//go:build verif
+
+package sctp
+
+// Stream-level contracts: write path (C18, C15, C01, C06), buffered-amount accounting (C15).
+
+func held(mu any) bool { return false }
+
+//@ func Stream.packetize
+//@   ensures#order-flag result1 == (ppi != PayloadTypeWebRTCDCEP && old(s.unordered))
+//@   ensures#buffered s.bufferedAmount == old(s.bufferedAmount)+uint64(len(raw))
+//@   ensures#counters-interleaved old(s.association.useInterleaving) ==>
+//@      s.sequenceNumber == old(s.sequenceNumber) &&
+//@      s.nextUnorderedMID == old(s.nextUnorderedMID)+ite(result1, uint32(1), uint32(0)) &&
+//@      s.nextOrderedMID == old(s.nextOrderedMID)+ite(result1, uint32(0), uint32(1))
+//@   ensures#counters-plain !old(s.association.useInterleaving) ==>
+//@      s.nextUnorderedMID == old(s.nextUnorderedMID) && s.nextOrderedMID == old(s.nextOrderedMID) &&
+//@      s.sequenceNumber == old(s.sequenceNumber)+ite(result1, uint16(0), uint16(1))
+//@   ensures#dcep-ordered ppi == PayloadTypeWebRTCDCEP ==> !result1
+//@   modifies s.bufferedAmount, s.sequenceNumber, s.nextOrderedMID, s.nextUnorderedMID
+//@   tags C18 C15 C01 C06
+
+//@ func Stream.WriteSCTP
+//@   ensures#too-large-rejected{C18} len(payload) > int(old(s.association.maxMessageSize)) ==> result1 != nil && result0 == 0 &&
+//@      s.bufferedAmount == old(s.bufferedAmount) && s.sequenceNumber == old(s.sequenceNumber) &&
+//@      s.nextOrderedMID == old(s.nextOrderedMID) && s.nextUnorderedMID == old(s.nextUnorderedMID)
+//@   ensures#closed-rejected{C18} len(payload) <= int(old(s.association.maxMessageSize)) && old(s.state) != StreamStateOpen ==> result1 != nil && result0 == 0 &&
+//@      s.bufferedAmount == old(s.bufferedAmount) && s.sequenceNumber == old(s.sequenceNumber) &&
+//@      s.nextOrderedMID == old(s.nextOrderedMID) && s.nextUnorderedMID == old(s.nextUnorderedMID)
+//@   ensures#failed-send-rolled-back{C18,C15,C01,C06} result1 != nil ==> result0 == 0 &&
+//@      s.bufferedAmount == old(s.bufferedAmount) && s.sequenceNumber == old(s.sequenceNumber) &&
+//@      s.nextOrderedMID == old(s.nextOrderedMID) && s.nextUnorderedMID == old(s.nextUnorderedMID)
+//@   ensures#accepted{C15,C18} result1 == nil ==> result0 == len(payload) && s.bufferedAmount == old(s.bufferedAmount)+uint64(len(payload))
+
+//@ func Stream.onBufferReleased
+//@   at call funcvalue assert#callback-without-locks{C15,C20} !held(s.lock)
+//@   at call funcvalue assert#callback-on-downward-crossing{C15} fromAmount > s.bufferedAmountLow && s.bufferedAmount <= s.bufferedAmountLow &&
+//@      fromAmount == old(s.bufferedAmount) && s.bufferedAmount == ite(old(s.bufferedAmount) < uint64(nBytesReleased), uint64(0), old(s.bufferedAmount)-uint64(nBytesReleased))
+//@   ensures#released{C15} nBytesReleased > 0 && !(old(s.onBufferedAmountLow) != nil && old(s.bufferedAmount) > old(s.bufferedAmountLow) &&
+//@      ite(old(s.bufferedAmount) < uint64(nBytesReleased), uint64(0), old(s.bufferedAmount)-uint64(nBytesReleased)) <= old(s.bufferedAmountLow)) ==>
+//@      s.bufferedAmount == ite(old(s.bufferedAmount) < uint64(nBytesReleased), uint64(0), old(s.bufferedAmount)-uint64(nBytesReleased)) && !held(s.lock)
+//@   ensures#noop{C15} nBytesReleased <= 0 ==> s.bufferedAmount == old(s.bufferedAmount)
+
+//@ func Stream.resetOutgoingStreamSequenceNumbers
+//@   ensures#fresh-sequence-numbers{C14} s.sequenceNumber == 0 && s.nextOrderedMID == 0 && s.nextUnorderedMID == 0
+//@   modifies s.sequenceNumber, s.nextOrderedMID, s.nextUnorderedMID
+
+//@ func Association.processAcknowledgement
+//@   loop 2 complete{C15}
+//@   at call Stream.onBufferReleased assert#released-without-association-lock{C15,C20} !held(a.lock)
